@@ -358,8 +358,7 @@ func (vm *Type) Run(retResult bool) (value.Type, error) {
 
 		case bytecode.FUNC:
 			val := vm.fetch(instr.Src0(), instr.Src0Addr(), m, ds)
-			frame := m.Top()
-			val.SetFrame(&frame)
+			val.SetFrame(m.Capture())
 			m.Push(val)
 
 		case bytecode.CALL:
@@ -384,12 +383,6 @@ func (vm *Type) Run(retResult bool) (value.Type, error) {
 
 		case bytecode.RET:
 			val := vm.fetch(instr.Src0(), instr.Src0Addr(), m, ds)
-
-			f, ok := val.ToFunction()
-			if ok && f.Frame != nil {
-				frame := slices.Clone(*f.Frame)
-				val.SetFrame(&frame)
-			}
 
 			nip := m.IP()
 			if nip == nil {
